@@ -63,6 +63,7 @@ type Program struct {
 	roMemo    map[*ssa.Function]int
 	roWhy     map[*ssa.Function]string
 	roBusy    map[*ssa.Function]bool
+	settled   map[*ssa.Global]bool
 }
 
 // required first-party packages; losing one of them is an unresolved anchor.
